@@ -11,7 +11,9 @@ Four families of models (one model = one generated layout x one clock mode):
   floatenum FloatEnumParam with label sets {plain, explicit indices + unit prefixes, explicit values (not monotonic),
             gaps, duplicated value}; index parameter software only / write method / read + write methods; readonly or not
   limits    <p>_min, <p>_max, both, <p>_limits (automatic TupleOf), <p>_limits typed LimitsType on int / float / scaled
-            base parameters (custom parameter x and predefined target), limits optionally preset by configuration
+            base parameters (custom parameter x and predefined target), limits optionally preset by configuration; class
+            layout: limits declared in the class of the base parameter / in a subclass / in a mixin, the ancestor with or
+            without a hand-written check_<p> hook (accepting everything / refusing one value)
   control   1-3 HasOutputModule controllers on one HasControlledBy output (+ optionally one controller without output);
             nodes with 2-3 such outputs, each with its own 1-2 controllers
 
@@ -20,7 +22,8 @@ history and applies one more operation (live frappy objects do not deep-copy).  
 states are merged on a canonical key; a model whose frontier runs empty before the bound is *closed* (the result then
 holds for every longer sequence over the same menu, except behind pruned violating states).  Depth 4 (quick) / 5
 (thorough).  The thorough tier adds: 3-member variants of every struct layout, failing hardware reads, nextafter()
-neighbours of limits and of float-enum midpoints, the fast clock for the limits family and the remaining float-enum
+neighbours of limits and of float-enum midpoints, failing reads on the remaining struct layouts, int / scaled bases for
+the class layouts of the limits family, the fast clock for the limits family and the remaining float-enum
 layouts.  Invariants are evaluated in every state, transition oracles on every (state, operation) pair.  A state that violates an invariant is reported and not expanded further, so the
 reported history ends with the operation that introduced the inconsistency.
 
@@ -83,7 +86,7 @@ from vf import core, nodes
 import frappy.modulebase
 from frappy.core import FloatRange, IntRange, Module, Parameter, ScaledInteger, Writable
 from frappy.datatypes import LimitsType
-from frappy.errors import CommunicationFailedError, HardwareError, SECoPError
+from frappy.errors import CommunicationFailedError, HardwareError, RangeError, SECoPError
 from frappy.extparams import FloatEnumParam, StructParam
 from frappy.mixins import HasControlledBy, HasOutputModule
 from frappy.params import Limit
@@ -351,7 +354,9 @@ class StructModel(Model):
         if self.hwread:
             for m in members:
                 ops.append(['e', 'hw', m])
-            if core.TIER == 'thorough':
+            # failing hardware reads (toggle): of the struct (combined methods) or of ONE member (separate methods);
+            # quick: the separate-method layouts with 2 members only
+            if core.TIER == 'thorough' or (not self.combined and n == 2):
                 ops.append(['e', 'fail', 'S' if self.combined else members[0]])
 
     def init_world(self, world):
@@ -675,19 +680,24 @@ class LimitsModel(Model):
         s = self.spec
         kind, layout, base, preset = s['base'], s['layout'], s['name'], s['preset']
         self.kind, self.layout, self.base = kind, layout, base
+        # class layout: where the Limit parameters are declared relative to the class of the base parameter, and
+        # whether that ancestor has a hand-written check_<p> hook (accepting everything / refusing the value 0)
+        self.where = where = s.get('where', 'same')
+        self.hook = hook = s.get('hook')
         ns = {base: Parameter('base parameter', base_type(kind), readonly=False, default=0), '_hw': None}
+        lim = {}
         self.limparams = []
         if layout in ('min', 'both'):
-            ns[base + '_min'] = Limit()
+            lim[base + '_min'] = Limit()
             self.limparams.append('min')
         if layout in ('max', 'both'):
-            ns[base + '_max'] = Limit()
+            lim[base + '_max'] = Limit()
             self.limparams.append('max')
         if layout == 'limits':
-            ns[base + '_limits'] = Limit()
+            lim[base + '_limits'] = Limit()
             self.limparams.append('limits')
         if layout == 'limitstype':
-            ns[base + '_limits'] = Limit(datatype=LimitsType(base_type(kind)), default=(-10, 10))
+            lim[base + '_limits'] = Limit(datatype=LimitsType(base_type(kind)), default=(-10, 10))
             self.limparams.append('limits')
         bases = (Module,)
         if base == 'target':
@@ -698,7 +708,22 @@ class LimitsModel(Model):
                 self._hw['target'] = value
                 return value
             ns['write_target'] = write_target
-        self.cls = type(f'Lim_{kind}_{layout}_{base}', bases, ns)
+        if hook:
+            if where == 'same':
+                # a check_<p> written in the class that declares the limits replaces the automatic check by design
+                raise core.Inconclusive('layout not generated: hook in the class of the limits')
+
+            def check_hook(self, value):
+                if hook == 'refuse0' and value == 0:
+                    raise RangeError('zero is not allowed')
+            ns['check_' + base] = check_hook
+        clsname = f'Lim_{kind}_{layout}_{base}_{where}_{hook}'
+        if where == 'same':
+            self.cls = type(clsname, bases, dict(ns, **lim))
+        elif where == 'subclass':
+            self.cls = type(clsname, (type(clsname + '_Base', bases, ns),), lim)
+        else:   # mixin: a plain class carrying the limits, listed before the class of the base parameter
+            self.cls = type(clsname, (type(clsname + '_Mixin', (), lim), type(clsname + '_Base', bases, ns)), {})
         self.preset = {}
         if preset:
             if 'min' in self.limparams:
@@ -783,7 +808,8 @@ class LimitsModel(Model):
         found = []
         bkey = f'm:{self.base}'
         # the signature names the branch of the limit check (separate min / max or the pair), not the base datatype
-        tag = 'limits:' + ('min-max' if self.layout in ('min', 'max', 'both') else 'pair')
+        tag = 'limits:' + ('min-max' if self.layout in ('min', 'max', 'both') else 'pair') \
+            + (':with-inherited-check-hook' if self.hook else '')
         if op[1] == 'w' and op[2] == 'X':
             lo, hi = self.current_limits(pre)
             vw = wire(self.kind, op[3])
@@ -805,6 +831,9 @@ class LimitsModel(Model):
                 if v is not None and v[0] == 'ok' and pre[bkey][1] is None and v[1] != pre[bkey][0]:
                     found.append((f'{tag}:write-base:refused-but-update-sent',
                                   f'write {self.base} = {op[3]!r} was refused ({res[1]}) but the client was sent {v[1]!r}'))
+            if not found and self.hook == 'refuse0' and op[3] == 0 and res[0] == 'ok':
+                found.append((f'{tag}:write-base:hand-written-check-not-honoured',
+                              f'write {self.base} = 0 accepted although check_{self.base} of the ancestor class refuses 0'))
         if op[1] == 'w' and op[2] == 'limits' and op[3][0] > op[3][1]:
             lkey = f'm:{self.base}_limits'
             if self.layout == 'limitstype':
@@ -829,6 +858,19 @@ def limits_specs(tier):
                                        ('scaled', 'both', 'x', True), ('int', 'limits', 'x', True),
                                        ('float', 'limitstype', 'target', True)):
         res.append(dict(family='limits', base=kind, layout=layout, name=name, preset=preset))
+    # class layouts: limits declared in a subclass / in a mixin of the class of the base parameter, the ancestor with
+    # or without a hand-written check_<p> hook
+    for where in ('subclass', 'mixin'):
+        for hook in (None, 'accept', 'refuse0'):
+            for layout in ('min', 'max', 'limits') if hook else ('both',):
+                kinds = ('float',) if tier == 'quick' else ('float', 'int')
+                for kind in kinds:
+                    res.append(dict(family='limits', base=kind, layout=layout, name='x', preset=False, where=where, hook=hook))
+    if tier == 'thorough':
+        for where, hook, layout, name in (('subclass', 'refuse0', 'both', 'target'), ('mixin', 'accept', 'limitstype', 'x'),
+                                          ('subclass', 'accept', 'both', 'x'), ('mixin', None, 'limits', 'target')):
+            res.append(dict(family='limits', base='scaled' if name == 'x' else 'float', layout=layout, name=name,
+                            preset=True, where=where, hook=hook))
     # no callbacks hang on limit parameters, so the clock mode matters least here: quick runs the slow clock only
     return [dict(r, clock=c) for r in res for c in (('slow',) if tier == 'quick' else ('slow', 'fast'))]
 
